@@ -36,6 +36,10 @@ def run(ctx):
     cprogs = F.in_contexts(progs, per, rnd)
     agg = run_family("C04ctx", cprogs, NAMES + ["z", "macroname"], dev=dev, invariants=INVS, perms=(0,), timeout=3000)
     ctx.add_family(agg)
+    # names belong to one template: what another template configured (extra builtins of the same names, ...) does not
+    # change how this one resolves them
+    from .. import isolation
+    ctx.replays += isolation.run(ctx, "name resolution")
     ctx.exhaustive = True
     ctx.rule = ("expression shapes (call, pipes of length 2-4, not:, exists:, string:, nestings, pipe with prefixed "
                 "alternative, undefined name, builtin name, attribute access with item fallback, 8 wrapper forms "
